@@ -79,3 +79,97 @@ pub fn assign_thunk_blocks(
     );
     (num_blocks, calls)
 }
+
+// ---------------------------------------------------------------------------------------------
+// thunks.rs: size of the non-primary executable parts, and where those parts really are (AArch64)
+
+/// Result of `aarch64_exec_parts`.
+#[derive(Debug, Clone)]
+pub struct ExecParts {
+    /// `ThunkLayoutBuilder::compute_non_primary_text_size` on the given part sizes.
+    pub non_primary_text_size: u64,
+    /// Part id of `ThunkConfig::primary_function_part_id`.
+    pub primary_part: usize,
+    /// Part id that each requested part was mapped to.
+    pub part_ids: Vec<usize>,
+    /// Part ids of all parts with a non-zero size in the order in which
+    /// `OutputSections::output_order` + `OutputSectionPartMap::output_order_map` visit them.
+    pub output_order: Vec<usize>,
+}
+
+/// Builds the AArch64 ELF output sections plus the named custom executable sections, gives every
+/// requested part `(section name, alignment exponent, size)` its size (`.plt.got`, `.init`,
+/// `.fini`, `.text` are the built-in sections, any other name is a custom executable section) and
+/// the primary function part `primary_size`, then calls the real
+/// `compute_non_primary_text_size` and the real output-order computation.
+pub fn aarch64_exec_parts(parts: &[(String, u8, u64)], primary_size: u64) -> Result<ExecParts, String> {
+    use crate::alignment::Alignment;
+    use crate::elf::Elf;
+    use crate::output_section_id as osid;
+    use crate::platform::Arch as _;
+    use crate::platform::SectionAttributes as _;
+
+    let config = crate::elf_aarch64::ElfAArch64::thunk_config().ok_or("no thunk config")?;
+    let mut output_sections = osid::OutputSections::<Elf>::with_base_address(0);
+    let mut section_ids = Vec::new();
+    for (name, exponent, _) in parts {
+        let alignment = Alignment {
+            exponent: *exponent,
+        };
+        let section_id = match name.as_str() {
+            ".plt.got" => osid::PLT_GOT,
+            ".init" => osid::INIT,
+            ".fini" => osid::FINI,
+            ".text" => osid::TEXT,
+            _ => {
+                let leaked: &'static [u8] = Box::leak(name.clone().into_bytes().into_boxed_slice());
+                let id = output_sections.add_named_section(osid::SectionName(leaked), alignment, None);
+                // What the attributes of an input section with flags "ax" do to the output section.
+                let text_attributes = output_sections.output_info(osid::TEXT).section_attributes;
+                text_attributes.apply(&mut output_sections, id);
+                id
+            }
+        };
+        section_ids.push((section_id, alignment));
+    }
+    let mut sizes = output_sections.new_part_map::<u64>();
+    let mut part_ids = Vec::new();
+    for ((section_id, alignment), (_, _, size)) in section_ids.iter().zip(parts) {
+        let part_id = if section_id.is_regular() {
+            section_id.part_id_with_alignment(*alignment)
+        } else {
+            section_id.base_part_id()
+        };
+        if part_id == config.primary_function_part_id {
+            return Err("a requested part is the primary part".into());
+        }
+        *sizes.get_mut(part_id) += *size;
+        part_ids.push(part_id.as_usize());
+    }
+    *sizes.get_mut(config.primary_function_part_id) += primary_size;
+
+    let non_primary_text_size = crate::thunks::verif_non_primary_text_size(
+        config.min_branch_range,
+        config.primary_function_part_id,
+        &output_sections,
+        &sizes,
+    );
+
+    let (order, _segments) = output_sections.output_order(crate::output_kind::OutputKind::StaticExecutable(
+        crate::args::RelocationModel::NonRelocatable,
+    ));
+    let mut output_order = Vec::new();
+    let _: crate::output_section_part_map::OutputSectionPartMap<u64> =
+        sizes.output_order_map(&order, &output_sections, |part_id, _alignment, size| {
+            if *size > 0 {
+                output_order.push(part_id.as_usize());
+            }
+            *size
+        });
+    Ok(ExecParts {
+        non_primary_text_size,
+        primary_part: config.primary_function_part_id.as_usize(),
+        part_ids,
+        output_order,
+    })
+}
